@@ -223,7 +223,7 @@ func (h *ctlRun) stepArrival(a *arrival, fault bool) error {
 			e = errInjected
 		}
 		h.g.release(a, e)
-		if err := h.rig.waitStable(10 * time.Second); err != nil {
+		if err := h.rig.waitStable(30 * time.Second); err != nil {
 			h.fail("propfail", "pipeline-stuck", "C11: "+err.Error(), err.Error(), "")
 			return nil
 		}
@@ -264,7 +264,7 @@ func (h *ctlRun) stepArrival(a *arrival, fault bool) error {
 				h.fail("mismatch", "pipe-trace", "the real handler performs an operation no model thread is about to perform", a.op+"@"+a.key, fmt.Sprint(lb))
 			}
 			h.g.release(a, nil)
-			return h.rig.waitStable(10 * time.Second)
+			return h.rig.waitStable(30 * time.Second)
 		}
 		h.gid2idx[a.gid] = idx
 	}
@@ -273,7 +273,7 @@ func (h *ctlRun) stepArrival(a *arrival, fault bool) error {
 		e = errInjected
 	}
 	h.g.release(a, e)
-	if err := h.rig.waitStable(10 * time.Second); err != nil {
+	if err := h.rig.waitStable(30 * time.Second); err != nil {
 		h.fail("propfail", "pipeline-stuck", "C11: "+err.Error(), err.Error(), "")
 		return nil
 	}
